@@ -125,8 +125,51 @@ def run(chk, tier):
     chk.explanation = __doc__
     m, info = common.prog("shared")
     check_module(chk, m, info)
+    null_prefix_equiv(chk, m, tier)
     chk.assumptions += ["check_badsalt_chars and get_hashfn are the same functions do_crypt uses (checked), their own semantics are covered by C05/C06 rules",
                         "pinned hash selection; other selections are evaluated under C19"]
+
+
+def null_prefix_equiv(chk, m, tier):
+    """crypt_gensalt_rn(NULL, count, rbytes, nrbytes, ...) against crypt_gensalt_rn(<preferred prefix>, same arguments): the
+    abstract interpretations (gensalt grid) must consist of the same paths - same argument boxes, same return, same errno,
+    same output pattern"""
+    from .. import gensalt_grid as G, xai
+    chk.rule("X-NULL-PREFIX", "crypt_gensalt with a NULL prefix behaves exactly as with the preferred method's prefix: identical abstract paths (argument boxes, result, errno, output) for every count and nrbytes class")
+    g = G.run(tier)
+    dflt = next((c["prefix"] for c in read_hashes_conf() if "DEFAULT" in c["flags"] and any(r["prefix"] == c["prefix"] for r in g["rows"])), None)
+    if dflt is None:
+        chk.distinct.add(("X-NULL-PREFIX", "no default method enabled"))
+        return
+
+    def sig(c):
+        out = []
+        for p in c["paths"]:
+            o = tuple(tuple(sorted(s_)) for s_, pr in p.get("out", []))
+            e = p["errno"] if p["errno"] is None or p["errno"] == "any" else tuple(p["errno"])
+            out.append((tuple(tuple(r) for r in p["roots"][:3]), p["ret"], e, o, tuple(sorted(a["kind"] for a in p["alarms"]))))
+        return sorted(out, key=repr)
+    n = 0
+    for cid, c in sorted(g["res"].items()):
+        mt = g["meta"][cid]
+        if mt["kind"] not in ("null", "null-auto"):
+            continue
+        twin = "P%s|%s" % (dflt, cid.split("|", 1)[1])
+        if twin not in g["res"]:
+            continue
+        a, b = sig(c), sig(g["res"][twin])
+        if a != b:
+            da = [x for x in a if x not in b][:1]
+            db = [x for x in b if x not in a][:1]
+            def show(x):
+                return "count %s nrbytes %s size %s -> %s errno %s %r" % (list(x[0][0]), list(x[0][1]), list(x[0][2]), x[1], x[2], bytes(min(t) for t in x[3][:40]) if x[3] else b"")
+            chk.fail("X-NULL-PREFIX", cid, "crypt_gensalt_rn(NULL, ...) and crypt_gensalt_rn(%r, ...) differ for nrbytes class %s: NULL gives {%s}, the prefix gives {%s}" % (
+                dflt, cid.split("|", 1)[1], show(da[0]) if da else "-", show(db[0]) if db else "-"), "lib/crypt.c", {"cells": [cid, twin]})
+        else:
+            chk.ok("X-NULL-PREFIX", cid, sample={"twin": twin, "paths": len(a)})
+            n += 1
+    if n + len([v for v in chk.violations if v["rule"] == "X-NULL-PREFIX"]) < 3:
+        raise AnalysisBroken("only %d NULL-prefix cells could be paired with cells of the preferred prefix %r" % (n, dflt))
 
 
 def check_module(chk, m, info, tag=""):
